@@ -4,8 +4,8 @@
 (* VfsHandles; after every call the published bytes seen by a FRESH reader are compared too.      *)
 EXTENDS VfsHandles, Json, IOUtils
 Rec == ndJsonDeserialize(IOEnv.TRACE)
-VARIABLES l, st, tainted, seg, cfg, sup, crv
-vars == <<l, st, tainted, seg, cfg, sup, crv>>
+VARIABLES l, st, tainted, seg, cfg, sup, crv, bpos
+vars == <<l, st, tainted, seg, cfg, sup, crv, bpos>>
 Report(kind, rec) == PrintT(<<kind, ToJson(rec)>>)
 
 IsPrefixSeq(a, b) == Len(a) <= Len(b) /\ SubSeq(b, 1, Len(a)) = a
@@ -30,20 +30,56 @@ Bad(e, r, s2) ==
 
 \* what was judged (vacuity guard): TLC registers, single worker; totals are printed with DONE
 CN == [scripts |-> 201, calls |-> 202, reads_checked |-> 203, seeks_checked |-> 204, published_checked |-> 205, detached |-> 206,
-       past_end |-> 207, zero_len_reads |-> 208, errors_expected |-> 209, cr_checked |-> 210]
+       past_end |-> 207, zero_len_reads |-> 208, errors_expected |-> 209, cr_checked |-> 210, big_seeks |-> 211]
 Bump(i) == TLCSet(i, TLCGet(i) + 1)
 BumpIf(c, i) == IF c THEN Bump(i) ELSE TRUE
 Counters == [x \in DOMAIN CN |-> TLCGet(CN[x])]
-Init == l = 1 /\ st = InitH /\ tainted = FALSE /\ seg = 0 /\ cfg = "-" /\ sup = {} /\ crv = "none" /\ \A x \in DOMAIN CN : TLCSet(CN[x], 0)
+\* ---- seeks with extreme offsets (C14 "seeks at any offset", C13).  TLC integers are 32 bit wide, so an
+\* offset or position near a multiple of 2^62 is the pair <<hi, lo>> = hi * 2^62 + lo with a small lo:
+\* u64::MAX = <<4,-1>>, i64::MAX = <<2,-1>>, i64::MIN = <<-2,0>>.  Addition and comparison work on pairs.
+BAdd(a, b) == <<a[1] + b[1], a[2] + b[2]>>
+BLess(a, b) == a[1] < b[1] \/ (a[1] = b[1] /\ a[2] < b[2])
+BZero == <<0, 0>>
+U64Max == <<4, -1>>
+Small(t) == t[1] = 0 /\ t[2] >= 0                        \* every backend must accept it
+Representable(t) == ~BLess(t, BZero) /\ ~BLess(U64Max, t)  \* a u64 position (a backend may refuse beyond its own limit)
+BTarget(pos, len, o) == IF o.w = "start" THEN <<o.hi, o.lo>> ELSE IF o.w = "cur" THEN BAdd(pos, <<o.hi, o.lo>>) ELSE BAdd(<<0, len>>, <<o.hi, o.lo>>)
+Init == bpos = <<>> /\ l = 1 /\ st = InitH /\ tainted = FALSE /\ seg = 0 /\ cfg = "-" /\ sup = {} /\ crv = "none" /\ \A x \in DOMAIN CN : TLCSet(CN[x], 0)
 SegInit ==
   /\ l <= Len(Rec) /\ Rec[l].ev = "hinit"
   /\ st' = [InitH EXCEPT !.ex = Rec[l].file0.ex, !.file = Rec[l].file0.d]
-  /\ tainted' = FALSE /\ seg' = seg + 1 /\ cfg' = Rec[l].cfg
+  /\ tainted' = FALSE /\ seg' = seg + 1 /\ cfg' = Rec[l].cfg /\ bpos' = <<>>
   /\ sup' = {Rec[l].sup[i] : i \in DOMAIN Rec[l].sup} /\ crv' = IF Rec[l].file0.ex THEN "any" ELSE "none"
   /\ Bump(CN.scripts)
   /\ l' = l + 1
+BSeek ==
+  /\ l <= Len(Rec) /\ Rec[l].ev = "hcall" /\ Rec[l].o.op = "bseek"
+  /\ LET e == Rec[l]
+         o == e.o
+         isw == st.w.open
+         pos0 == IF bpos # <<>> THEN bpos ELSE <<0, (IF isw THEN st.w.pos ELSE st.r.pos) * o.b>>
+         len == (IF isw THEN Len(st.w.buf) ELSE Len(st.r.data)) * o.b
+         t == BTarget(pos0, len, o)
+         \* where an append handle stands before its first write is backend-specific (end of file in memory, 0 for
+         \* an O_APPEND descriptor): a seek relative to the current position is judged once the position is known
+         known == o.w # "cur" \/ bpos # <<>> \/ ~(isw /\ st.w.app)
+         bad == (IF e.res.c = "panic" THEN {"nopanic"} ELSE {})
+                \cup (IF known /\ e.res.c = "ok" /\ ~Representable(t) THEN {"seek"} ELSE {})            \* wrapped around instead of failing
+                \cup (IF known /\ e.res.c = "ok" /\ Representable(t) /\ e.res.v # t THEN {"seek"} ELSE {})  \* landed somewhere else
+                \cup (IF known /\ e.res.c # "ok" /\ e.res.c # "panic" /\ Small(t) THEN {"class"} ELSE {}) IN  \* refused an ordinary position
+     /\ bpos' = IF e.res.c = "ok" THEN e.res.v ELSE IF known THEN pos0 ELSE bpos             \* a failed seek leaves the position alone
+     /\ tainted' = (tainted \/ bad # {})
+     /\ Bump(CN.calls) /\ Bump(CN.big_seeks)
+     /\ IF bad = {} THEN TRUE
+        ELSE Report("VIOL", [l |-> l, seg |-> seg, secondary |-> tainted, conjs |-> bad,
+                             sig |-> [conj |-> CHOOSE c \in bad : TRUE, op |-> "bseek", kind |-> "handles", cfg |-> cfg,
+                                      wh |-> o.w, got |-> e.res.c, want |-> {IF Representable(t) THEN "ok" ELSE "err"},
+                                      handle |-> IF isw THEN "write" ELSE "read", past_end |-> TRUE, detached |-> st.w.det,
+                                      from |-> pos0, offset |-> <<o.hi, o.lo>>]])
+  /\ UNCHANGED <<seg, cfg, sup, st, crv>>
+  /\ l' = l + 1
 Call ==
-  /\ l <= Len(Rec) /\ Rec[l].ev = "hcall"
+  /\ l <= Len(Rec) /\ Rec[l].ev = "hcall" /\ Rec[l].o.op # "bseek"
   /\ LET e == Rec[l]
          r == Step(st, e.o)
          \* follow the observed length of a (possibly short) read
@@ -72,9 +108,9 @@ Call ==
                                       handle |-> IF st.w.open THEN (IF st.w.app THEN "append" ELSE "create") ELSE IF st.r.open THEN "read" ELSE "none",
                                       past_end |-> IF st.r.open THEN st.r.pos > Len(st.r.data) ELSE st.w.pos > Len(st.w.buf),
                                       detached |-> st.w.det]])
-  /\ UNCHANGED <<seg, cfg, sup>>
+  /\ UNCHANGED <<seg, cfg, sup, bpos>>
   /\ l' = l + 1
-Next == SegInit \/ Call
+Next == SegInit \/ Call \/ BSeek
 TrSpec == Init /\ [][Next]_vars
 Consumed ==
   IF TLCGet("stats").diameter - 1 = Len(Rec) THEN Report("DONE", [events |-> Len(Rec), judged |-> Counters])
